@@ -183,7 +183,11 @@ class Sym:
             c = d[2]
             if c.name == "len" and c.self_ty in ("str", "std::string::String"):
                 v = self.view_op(c.args[0])
-                res = Lin(0, {("len", v.key() if v else ("?", c.bb)): 1})
+                if v is not None and isinstance(v.root, tuple) and v.root[0] == "const" and isinstance(v.root[1], str) and v.root[1] != "?" and not v.off.a:
+                    # `"Vec<".len()`: the byte length of a literal is a constant
+                    res = Lin(len(v.root[1].encode()) - v.off.c)
+                else:
+                    res = Lin(0, {("len", v.key() if v else ("?", c.bb)): 1})
             elif c.name == "len_utf8":
                 # byte length of the *first* character of a string: s.chars().next() -> Some(ch) -> ch.len_utf8()
                 res = None
